@@ -83,10 +83,34 @@ type AliasI = Variadic
 
 type One interface{ Only(x int) }
 
+// methods whose names differ only in the case of the first letter (lockWrite / lockwrite)
+type CasePair interface {
+	Write(seq int) error
+	write(seq int)
+}
+
+// a method returning the mocked interface itself
+type Chain interface {
+	With(name string) Chain
+	Done()
+}
+
 type Empty interface{}
 `
 
-var corpusIfaces = []string{"Basic", "Variadic", "Kinds", "Gen", "Gen2", "GenU", "Embeds", "AliasI", "One", "Empty"}
+var corpusIfaces = []string{"Basic", "Variadic", "Kinds", "Gen", "Gen2", "GenU", "Embeds", "AliasI", "One", "Empty", "CasePair", "Chain"}
+
+// ifacesFor: an interface with an unexported method cannot be implemented from another package.
+func ifacesFor(cfg L3Config) []string {
+	var out []string
+	for _, in := range corpusIfaces {
+		if cfg.OtherPkg && in == "CasePair" {
+			continue
+		}
+		out = append(out, in)
+	}
+	return out
+}
 
 // L3Config is one flag combination.
 type L3Config struct {
@@ -191,7 +215,7 @@ func (env *Env) L3Get() (*L3State, error) {
 				args = append(args, "-skip-ensure")
 			}
 			args = append(args, ".")
-			for _, in := range corpusIfaces {
+			for _, in := range ifacesFor(cfg) {
 				args = append(args, in+":"+in+"Mock_"+cfg.Tag())
 			}
 			o, err := runCmd(filepath.Join(root, "corpus"), 5*time.Minute, cliEnv(), bin, args...)
@@ -219,7 +243,7 @@ func (env *Env) L3Get() (*L3State, error) {
 				continue
 			}
 			src := repo.Pkgs["corpus.example/corpus"]
-			for _, in := range corpusIfaces {
+			for _, in := range ifacesFor(cfg) {
 				name := in + "Mock_" + cfg.Tag()
 				obj := sp.Pkg.Scope().Lookup(name)
 				if obj == nil {
